@@ -95,6 +95,8 @@ func mcWorlds(family string) []Scenario {
 				add(c, []sut.SeedUser{{Pid: "u1", Pw: 1, Conf: true, Totp: true, Rc: true}, {Pid: "u2", Pw: 2, Conf: true, Sms: 1, Rc: true}})
 			}
 		}
+	case "smsswitch":
+		add(c0("auth", "sms", "logout"), []sut.SeedUser{{Pid: "u1", Pw: 1, Conf: true, Sms: 1, Rc: true}, {Pid: "u2", Pw: 2, Conf: true, Sms: 2}})
 	case "tfasetup":
 		for _, m := range [][]string{{"auth", "totp", "sms", "recovery", "logout"}, {"auth", "remember", "totp", "sms", "recovery", "logout"}} {
 			for _, ea := range []bool{false, true} {
@@ -365,6 +367,19 @@ func mcEvents(family string, c sut.Config, o sut.Obs, iss map[string]int) []sut.
 				ev(sut.Event{Act: "RecoverEnd", B: "b1", Tok: t, Pw: 3})
 			}
 		}
+	case "smsswitch":
+		for _, p := range []string{"u1", "u2"} {
+			for _, w := range []int{1, 2} {
+				ev(sut.Event{Act: "LoginPost", B: "b1", Pid: p, Pw: w})
+			}
+		}
+		for _, k := range append([]int{0, -1}, rng1(iss["sc"])...) {
+			ev(sut.Event{Act: "SmsValidate", B: "b1", Code: k})
+		}
+		ev(sut.Event{Act: "SmsValidate", B: "b1", Rc: 1, G: 1})
+		ticks(1)
+		ev(sut.Event{Act: "Probe", B: "b1"})
+		ev(sut.Event{Act: "Logout", B: "b1", Method: c.LogoutMethod})
 	case "tfasetup":
 		for _, p := range []string{"u1", "u2"} {
 			for _, w := range []int{1, 2} {
